@@ -221,6 +221,13 @@ def shard_worker(args):
         return {"shard": shard, "seed": seed, "error": traceback.format_exc()}
 
 
+def shard_entry(job, conn):
+    try:
+        conn.send(shard_worker(job))
+    finally:
+        conn.close()
+
+
 def shrink_worker(args):
     modname, shard, seed, n, tier, bucket, known_ids = args
     import importlib
